@@ -179,21 +179,39 @@ public class XrlDrv {
   }
 
   /** returns false if the op is unknown */
+  static void scribble(compoundDataNIST c) {
+    if (c == null) return;
+    if (c.Elements != null) java.util.Arrays.fill(c.Elements, 92);
+    if (c.massFractions != null) java.util.Arrays.fill(c.massFractions, 0.5);
+  }
+  static void scribble(radioNuclideData c) {
+    if (c == null) return;
+    if (c.XrayLines != null) java.util.Arrays.fill(c.XrayLines, -1);
+    if (c.XrayIntensities != null) java.util.Arrays.fill(c.XrayIntensities, 0.5);
+    if (c.GammaEnergies != null) java.util.Arrays.fill(c.GammaEnergies, 0.5);
+    if (c.GammaIntensities != null) java.util.Arrays.fill(c.GammaIntensities, 0.5);
+  }
+
   static boolean op(String name, int j) {
     switch (name) {
       case "CompoundParser": {
+        { compoundData t = Xraylib.CompoundParser(S(0, j)); if (t != null) { java.util.Arrays.fill(t.Elements, 92); java.util.Arrays.fill(t.massFractions, 0.5); } }
         compoundData cd = Xraylib.CompoundParser(S(0, j));
         v0 = cd.nElements; v1 = cd.molarMass;
         emit(j + "\t" + cd.nElements + "\t" + hx(cd.nAtomsAll) + "\t" + hx(cd.molarMass) + "\t" + ints(cd.Elements, cd.nElements) + "\t"
              + dbls(cd.nAtoms, cd.nElements) + "\t" + dbls(cd.massFractions, cd.nElements) + "\n");
         return true;
       }
+      // every catalogue lookup: fetch, scribble over the arrays of the object handed out (a caller is free to edit what it was given), fetch AGAIN and report
+      // the second object - equal to what C reports iff every lookup returns an independent deep copy
       case "NISTByName": {
+        scribble(Xraylib.GetCompoundDataNISTByName(S(0, j)));
         compoundDataNIST c = Xraylib.GetCompoundDataNISTByName(S(0, j));
         v0 = c.nElements; v1 = c.density; serNist(j, c);
         return true;
       }
       case "NISTByIndex": {
+        scribble(Xraylib.GetCompoundDataNISTByIndex(icol[0][j]));
         compoundDataNIST c = Xraylib.GetCompoundDataNISTByIndex(icol[0][j]);
         v0 = c.nElements; v1 = c.density; serNist(j, c);
         return true;
@@ -208,11 +226,13 @@ public class XrlDrv {
         serList(j, Xraylib.Crystal_GetCrystalsList(), icol[0][j] != 0);
         return true;
       case "RadioByName": {
+        scribble(Xraylib.GetRadioNuclideDataByName(S(0, j)));
         radioNuclideData c = Xraylib.GetRadioNuclideDataByName(S(0, j));
         v0 = c.Z; v1 = c.A; serRadio(j, c);
         return true;
       }
       case "RadioByIndex": {
+        scribble(Xraylib.GetRadioNuclideDataByIndex(icol[0][j]));
         radioNuclideData c = Xraylib.GetRadioNuclideDataByIndex(icol[0][j]);
         v0 = c.Z; v1 = c.A; serRadio(j, c);
         return true;
@@ -242,6 +262,7 @@ public class XrlDrv {
         return true;
       }
       case "Crystal_GetCrystal": {
+        { Crystal_Struct t = Xraylib.Crystal_GetCrystal(S(0, j)); if (t != null && t.atom != null) java.util.Arrays.fill(t.atom, null); }
         Crystal_Struct c = Xraylib.Crystal_GetCrystal(S(0, j));
         v0 = c.n_atom; v1 = c.volume; serCrystal(j, c);
         return true;
